@@ -208,7 +208,7 @@ func (qr *QR) RTo(dst *Dense) {
 	dst.Copy(t)
 
 	// Zero below the triangular.
-	for i := r; i < c; i++ {
+	for i := c; i < r; i++ {
 		zero(dst.mat.Data[i*dst.mat.Stride : i*dst.mat.Stride+c])
 	}
 }
